@@ -13,6 +13,7 @@ LEVEL_TEXT = ('All clauses of the property are algebraic identities of the kerne
 LEVEL_NOTE = 'Trusted: front-end, interpreter, complex algebra without rounding. The potential is assumed to satisfy the degree-l surface Laplace identity (that is C14 for the shipped potentials).'
 EXPLANATION = ('R15.1 Hooke law per component; R15.2 radial tractions == y2 U, y4 dU/dtheta, y4 dU/dphi / sin(theta) under the Laplace relation; dy1/dr == the solver ODE; '
                'R15.3 volumetric heating weights, zero for real moduli, abs => real non-negative; R15.4 index discipline on a 2x2x2x2 grid; displacements == y1 U, y3 dU/dtheta, y3 dU/dphi / sin.')
+EXPLANATION += ' R15.6 two successive calls on grids of the same size return separate arrays: what the first call returned still holds after the second (functools caches are interpreted).'
 
 
 def mk_inputs(nr, nl, nc, nt, tagf=lambda *a: '', tag=''):
